@@ -24,7 +24,7 @@ ASSUMPTIONS = ["children excluded because reference definitions legitimately act
 def floors(tier):
     q = tier == "quick"
     return {"pairs.admissible": 30000 if q else 800000, "A_ends.list": 2000, "A_ends.blockquote": 2000, "A_ends.fence": 500, "A_ends.table": 200,
-            "B_starts.nonparagraph": 10000, "chains": 2000, "skipped.A_open": 100}
+            "B_starts.nonparagraph": 10000, "chains": 2000, "skipped.A_open": 100, "B.battery": 10000}
 
 
 def blocks(toks, shift=0):
@@ -170,6 +170,10 @@ def run(ctx):
 
     followers = ["- x\n", "  - x\n".lstrip(), "1. x\n", "> q\n", "zz\n", "===\n", "---\n", "# h\n", "```\nc\n```\n", "[r]: /u\n", "|a|b|\n|-|-|\n|c|d|\n",
                  "<div>\nx\n</div>\n", "* * *\n", "+ y\n\n  z\n", "2) w\n", "a\nb\n", "-\n", ">\n", "\\\n", "<!-- c -->\n"]
+    # sensitive-follower battery: a block DIRECTLY followed (no blank line) by lines whose reading depends on parser context
+    bases = ["|a|b|\n|-|-|\n|c|d|\n", "|a|\n|-|\n", "para\n", "> q\n", "- i\n", "1. o\n", "```\nf\n```\n", "# h\n", "<div>\nx\n", "t\n===\n", "[r]: /u\n", "> - n\n", "- > m\n"]
+    adj = ["2. c", "-", "- x", "1. y", "1.", "> q", ">", "# h", "---", "===", "```", "    ind", "<div>", "|x|y|", "lazy", "  two", "* * *", "+", "10) z", "[r2]: /v", "\\", "-|-", ":-:", "a|b"]
+    battery = [b + a1 + "\n" for b in bases for a1 in adj] + [b + a1 + "\n" + a2 + "\n" for b in bases[:6] for a1 in adj[:12] for a2 in adj[:12]]
     n = ctx.scale(60000, 2000000)
     for k in range(n):
         A = doc()
@@ -177,7 +181,10 @@ def run(ctx):
             for _ in range(rng.randint(2, 5)):
                 A = A + "\n" + doc()
             ctx.count("chains")
-        B = doc() if rng.random() < 0.7 else rng.choice(followers)
+        r0 = rng.random()
+        B = doc() if r0 < 0.55 else (rng.choice(followers) if r0 < 0.7 else rng.choice(battery))
+        if r0 >= 0.7:
+            ctx.count("B.battery")
         if not B.strip(" \n") or B[0] in " \n" or not A.strip(" \n"):
             ctx.count("skipped.B_indented_or_blank")
             continue
